@@ -156,8 +156,9 @@ def solve_one(i):
                 lite = [e for e in flat if not _has_quantifier(e)]; full = flat
                 from pyvc.engine import _light
                 # (A) recursive spec functions abstracted to uninterpreted ones (weaker facts; no unfolding)  (B) with their definitions
-                attempts = [("quantifier-free instances, spec functions uninterpreted", [x for x in (_light(e) for e in lite) if x is not None], 1500)]
-                if len(lite) < len(full): attempts.append(("quantifier-free instances", lite, 2000))
+                t_qf = max(1500, int(budget) // 4)
+                attempts = [("quantifier-free instances, spec functions uninterpreted", [x for x in (_light(e) for e in lite) if x is not None], t_qf)]
+                if len(lite) < len(full): attempts.append(("quantifier-free instances", lite, t_qf))
                 for label, exprs_, tmo_ in attempts:
                     sol = z3.Solver(); sol.set("timeout", int(min(budget, tmo_))); sol.add(*exprs_)
                     if sol.check() == z3.unsat:
@@ -332,19 +333,24 @@ def run_groups(tasks, budget_ms=12000, workers_each=None):
     process (the z3 objects never cross a process boundary); returns [(name, status, frozen-obligations | message, info, stats, derived)]"""
     ctx = mp.get_context("fork")
     ncpu = os.cpu_count() or 4
-    workers_each = workers_each or max(2, ncpu // max(1, len(tasks)))
-    procs = []
-    for name, fn, args in tasks:
-        pc, cc = ctx.Pipe(duplex=False)
-        p = ctx.Process(target=_group_child, args=(cc, fn, args, budget_ms, workers_each)); p.daemon = False; p.start(); cc.close()
-        procs.append((name, p, pc))
-    out = []
-    for name, p, pc in procs:
-        try: msg = pc.recv()
-        except EOFError: msg = ("error", "child process died without a result", None, {}, [])
-        p.join()
-        out.append((name,) + tuple(msg))
-    return out
+    # at most `par` groups at a time, each with ncpu // par solver workers: the machine is not oversubscribed however many groups a check has
+    # (oversubscription turns the short first solver attempts into time-outs and makes verdicts depend on the load)
+    par = max(1, min(len(tasks), int(os.environ.get("VERIF_GROUPS", "4"))))
+    workers_each = workers_each or max(2, ncpu // par)
+    pending = list(enumerate(tasks)); running = {}; results = {}
+    while pending or running:
+        while pending and len(running) < par:
+            idx, (name, fn, args) = pending.pop(0)
+            pc, cc = ctx.Pipe(duplex=False)
+            p = ctx.Process(target=_group_child, args=(cc, fn, args, budget_ms, workers_each)); p.daemon = False; p.start(); cc.close()
+            running[idx] = (name, p, pc)
+        ready = mp.connection.wait([pc for (_n, _p, pc) in running.values()], timeout=1.0)
+        for idx in [i for i, (_n, _p, pc) in running.items() if pc in ready]:
+            name, p, pc = running.pop(idx)
+            try: msg = pc.recv()
+            except EOFError: msg = ("error", "child process died without a result", None, {}, [])
+            p.join(); results[idx] = (name,) + tuple(msg)
+    return [results[i] for i in range(len(tasks))]
 
 
 def cross_check_many(eng, obls, max_n=300, seed=0, solver="z3-4.8.12", timeout_s=15, workers=8):
